@@ -297,7 +297,7 @@ static void op_use_key(World *w, Buf *b) {
 
 /* ---- administrative commands that change seeds, proofs, enables, audit configuration, the PP list; child objects ---- */
 #define CC_SetCommandCodeAuditStatus 0x140
-#define CC_PP_Commands 0x127
+#define CC_PP_Commands 0x12D
 #define CC_GetCommandAuditDigest 0x133
 static int g_gen_host_rng_ok;   /* scenarios without a twin-run oracle may create children whose keys come from the crypto library's generator */
 static void w_drop_objects(World *w, uint32_t hier) {
